@@ -421,6 +421,9 @@ int __parsec_schedule_flush_private( parsec_execution_stream_t* es )
     parsec_task_t* task = es->next_task;
     if( NULL != task ) {
         es->next_task = NULL;
+        /* The task was chopped off the ring it was released with, its links
+         * still point into that ring: it must be scheduled as a ring of one. */
+        PARSEC_LIST_ITEM_SINGLETON(task);
         return __parsec_schedule(es, task, 0);
     }
     return PARSEC_SUCCESS;
